@@ -287,6 +287,30 @@ def indices(ctx: Ctx):
             where_call = u(n)
     ctx.check_expr("threshold", where + " [alpha]", ast.parse(sig or "None", mode="eval").body, "p_vals < alpha", "a column is listed when its p-value is below alpha")
     ctx.check_expr("threshold", where + " [only-larger]", ast.parse(only or "None", mode="eval").body, "np.logical_and(t_stats < 0, significance)", "only-larger: additionally the other column's proportion is smaller (t < 0), so a column never lists itself (t = 0)")
+    # polarity: undefined (NaN) p-values - empty columns, difference columns - compare False with everything, so
+    # "significant" must be the POSITIVE comparison p < alpha; deriving it from the complement (p >= alpha -> not
+    # significant, everything else significant) lists every column whose p-value is undefined.
+    cmps = []
+    for n in ast.walk(src):
+        if isinstance(n, ast.Compare) and len(n.ops) == 1:
+            l, r = u(n.left), u(n.comparators[0])
+            if "p_val" in l and "alpha" in r:
+                cmps.append((type(n.ops[0]).__name__, u(n)))
+            elif "alpha" in l and "p_val" in r:
+                flip = {"Lt": "Gt", "Gt": "Lt", "LtE": "GtE", "GtE": "LtE"}
+                cmps.append((flip.get(type(n.ops[0]).__name__, type(n.ops[0]).__name__), u(n)))
+    has_nan_guard = any(isinstance(n, ast.Call) and u(n.func).endswith("isnan") for n in ast.walk(src))
+    if not cmps:
+        ctx.undecided("threshold.polarity", where, "no comparison of the p-values with alpha found", "p_vals < alpha")
+    for op, text in cmps:
+        if op == "Lt":
+            ctx.held("threshold.polarity", where + f" [{text}]", text, "p < alpha", "positive comparison: an undefined p-value is never significant")
+        elif op == "LtE":
+            ctx.violated("threshold.polarity", where + f" [{text}]", text, "p < alpha", "'below alpha' is strict")
+        elif op in ("GtE", "Gt") and not has_nan_guard:
+            ctx.violated("threshold.polarity", where + f" [{text}]", text, "p < alpha", "significance derived from the complement test: an undefined (NaN) p-value fails p >= alpha and is reported as significant")
+        else:
+            ctx.undecided("threshold.polarity", where + f" [{text}]", "comparison of unexpected form", "p < alpha")
     ctx.ob("threshold", where + " [positions]", where_call, "np.where(sig_row)[0]", where_call == "np.where(sig_row)[0]", "positions are those of the assembled (display-ordered) row")
     cp = ctx.repo.cls("cubepart.py", "CubePartition")
     e = expand(ctx.repo, cp, "_alpha", stop=lambda mm: True)
